@@ -145,6 +145,9 @@ def main():
     r = prove.prove_targets(db, cs, ls, timeout_ms=timeout_ms)
     results = r["results"]
     rdir = os.path.join(HERE, "replays", pid)
+    if os.path.isdir(rdir):  # replay files belong to one run
+        for f in os.listdir(rdir):
+            os.unlink(os.path.join(rdir, f))
     violations, undecided, faults, known_seen = [], [], [], []
     for u in r["undecided_functions"]:
         undecided.append({"obligation": u["function"], "reason": u["reason"]})
